@@ -4,7 +4,6 @@
 package expand
 
 import (
-	"cmp"
 	"runtime"
 	"slices"
 	"strconv"
@@ -245,18 +244,10 @@ func listEnviron_(caseInsensitive bool, pairs ...string) Environ {
 	list := slices.Clone(pairs)
 	env := listEnviron{caseInsensitive: caseInsensitive}
 	slices.SortStableFunc(list, func(a, b string) int {
-		isep := strings.IndexByte(a, '=')
-		jsep := strings.IndexByte(b, '=')
-		if isep < 0 {
-			isep = 0
-		} else {
-			isep += 1
-		}
-		if jsep < 0 {
-			jsep = 0
-		} else {
-			jsep += 1
-		}
+		// Sort by name alone: with the separator included, "A1=" would
+		// sort before "A=", as any byte below '=' does.
+		isep := max(strings.IndexByte(a, '='), 0)
+		jsep := max(strings.IndexByte(b, '='), 0)
 		return env.compare(a[:isep], b[:jsep])
 	})
 
@@ -297,23 +288,13 @@ func (l listEnviron) compare(a, b string) int {
 }
 
 func (l listEnviron) Get(name string) Variable {
-	eqpos := len(name)
-	endpos := len(name) + 1
 	i, ok := slices.BinarySearchFunc(l.pairs, name, func(pair, name string) int {
-		if len(pair) < endpos {
-			// Too short; see if we are before or after the name.
-			return l.compare(pair, name)
-		}
-		// Compare the name prefix, then the equal character.
-		c := l.compare(pair[:eqpos], name)
-		eq := pair[eqpos]
-		if c == 0 {
-			return cmp.Compare(eq, '=')
-		}
-		return c
+		// The list is sorted by name; every pair has a separator.
+		return l.compare(pair[:strings.IndexByte(pair, '=')], name)
 	})
 	if ok {
-		return Variable{Set: true, Exported: true, Kind: String, Str: l.pairs[i][endpos:]}
+		pair := l.pairs[i]
+		return Variable{Set: true, Exported: true, Kind: String, Str: pair[strings.IndexByte(pair, '=')+1:]}
 	}
 	return Variable{}
 }
